@@ -353,6 +353,12 @@ func (m *RuleManager) savePatch(p *ruleConfig) error {
 	// 2. in case that PD is suddenly down in the loop, inconsistency again
 	// now we can only rely clients to request again
 	var err error
+	// refuse the whole update before anything is written.
+	for id := range p.groups {
+		if _, err = core.RuleGroupKey(id); err != nil {
+			return errs.ErrRuleContent.FastGenByArgs(err.Error())
+		}
+	}
 	for key, r := range p.rules {
 		if r == nil {
 			r = &Rule{GroupID: key[0], ID: key[1]}
